@@ -104,6 +104,19 @@ pub enum Workload {
     Deep { shape: PathShape },
     /// Error storm, sentinel, probe datum nested `probe_depth` levels.
     Storm { blobs: Vec<StormBlob>, probe_depth: usize },
+    /// Width instead of depth: `opener`, `count` copies of `element`, `tail`.
+    /// Nothing here nests more than a few levels, so nothing may run out of stack.
+    Wide { opener: String, element: String, count: usize, tail: String },
+}
+
+pub fn wide_text(opener: &str, element: &str, count: usize, tail: &str) -> Vec<u8> {
+    let mut out = Vec::with_capacity(opener.len() + element.len() * count + tail.len());
+    out.extend_from_slice(opener.as_bytes());
+    for _ in 0..count {
+        out.extend_from_slice(element.as_bytes());
+    }
+    out.extend_from_slice(tail.as_bytes());
+    out
 }
 
 #[derive(Debug, Clone, PartialEq, Serialize, Deserialize)]
@@ -195,6 +208,7 @@ impl HistCase {
             Workload::Any { input } => input.clone(),
             Workload::Deep { shape } => text::build_path(shape),
             Workload::Storm { blobs, probe_depth } => storm_text(blobs, *probe_depth).0,
+            Workload::Wide { opener, element, count, tail } => wide_text(opener, element, *count, tail),
         }
     }
 }
@@ -227,6 +241,7 @@ struct Driver<'m> {
     shared: Option<Rc<ReadShared>>,
     sticky_hard: bool,
     preset_default: bool,
+    opaque: bool,
     mon: &'m mut Mon,
     what: &'static str,
 }
@@ -258,19 +273,45 @@ impl<'m> Driver<'m> {
             // every other step goes through the deprecated alias of the method
             // (`parse`, `parse_value`, `end`), which must behave identically
             let alias = n % 2 == 0;
+            // In opaque mode (very wide data) the result is dropped at once, inside
+            // the guard, and stands in as `()`: lexpr's own Debug, PartialEq and Clone
+            // recurse along a list, which is not this property's business, so the
+            // harness must not format, compare or copy such a value. Dropping it is
+            // the one thing no caller can avoid.
+            let opaque = self.opaque;
+            let pv = move |o: Option<Value>| -> Option<Value> {
+                if opaque {
+                    o.map(|v| {
+                        drop(v);
+                        Value::Null
+                    })
+                } else {
+                    o
+                }
+            };
+            let pd = move |o: Option<lexpr::Datum>| -> Option<Value> {
+                o.map(|d| {
+                    if opaque {
+                        drop(d);
+                        Value::Null
+                    } else {
+                        Value::from(d)
+                    }
+                })
+            };
             #[allow(deprecated)]
             let r: Result<lexpr::parse::Result<Option<Value>>, Abnormal> = match op {
-                Op::NextValue if alias => guarded(|| parser.parse()),
-                Op::ExpectValue if alias => guarded(|| parser.parse_value().map(Some)),
+                Op::NextValue if alias => guarded(|| parser.parse().map(pv)),
+                Op::ExpectValue if alias => guarded(|| parser.parse_value().map(|v| pv(Some(v)))),
                 Op::ExpectEnd if alias => guarded(|| parser.end().map(|()| None)),
-                Op::NextValue => guarded(|| parser.next_value()),
-                Op::NextDatum => guarded(|| parser.next_datum().map(|o| o.map(Value::from))),
-                Op::ExpectValue => guarded(|| parser.expect_value().map(Some)),
-                Op::ExpectDatum => guarded(|| parser.expect_datum().map(|d| Some(d.value().clone()))),
+                Op::NextValue => guarded(|| parser.next_value().map(pv)),
+                Op::NextDatum => guarded(|| parser.next_datum().map(pd)),
+                Op::ExpectValue => guarded(|| parser.expect_value().map(|v| pv(Some(v)))),
+                Op::ExpectDatum => guarded(|| parser.expect_datum().map(|d| pd(Some(d)))),
                 Op::ExpectEnd => guarded(|| parser.expect_end().map(|()| None)),
-                Op::ValueIterNext => guarded(|| parser.value_iter().next().transpose()),
-                Op::DatumIterNext => guarded(|| parser.datum_iter().next().transpose().map(|o| o.map(Value::from))),
-                Op::IteratorNext => guarded(|| Iterator::next(&mut parser).transpose()),
+                Op::ValueIterNext => guarded(|| parser.value_iter().next().transpose().map(pv)),
+                Op::DatumIterNext => guarded(|| parser.datum_iter().next().transpose().map(pd)),
+                Op::IteratorNext => guarded(|| Iterator::next(&mut parser).transpose().map(pv)),
             };
             let (seen, fired) = match &self.shared {
                 Some(sh) => (sh.delivered.get().min(self.input.len()), sh.fired.borrow().clone()),
@@ -350,6 +391,11 @@ impl<'m> WithReader for StreamDrive<'m> {
 }
 
 pub fn exec(opts_ix: u32, source: &Source, input: &[u8], ops: &[Op], then_drain: Option<Op>, mon: &mut Mon) -> HistRun {
+    exec_with(opts_ix, source, input, ops, then_drain, false, mon)
+}
+
+/// `opaque`: drop every returned value at once instead of keeping it.
+pub fn exec_with(opts_ix: u32, source: &Source, input: &[u8], ops: &[Op], then_drain: Option<Op>, opaque: bool, mon: &mut Mon) -> HistRun {
     let opts = opts::parse_options(opts_ix);
     mon.evaluations += 1;
     let planned = match source {
@@ -360,17 +406,17 @@ pub fn exec(opts_ix: u32, source: &Source, input: &[u8], ops: &[Op], then_drain:
     match source {
         Source::Str if std::str::from_utf8(input).is_ok() => {
             let s = std::str::from_utf8(input).unwrap();
-            Driver { opts, input, ops, then_drain, bound, shared: None, sticky_hard: false, preset_default: opts_ix == opts::PARSE_DEFAULT, mon, what: "str source" }.drive(if opts_ix == opts::PARSE_DEFAULT { Parser::from_str(s) } else { Parser::from_str_custom(s, opts) })
+            Driver { opts, input, ops, then_drain, bound, shared: None, sticky_hard: false, preset_default: opts_ix == opts::PARSE_DEFAULT, opaque, mon, what: "str source" }.drive(if opts_ix == opts::PARSE_DEFAULT { Parser::from_str(s) } else { Parser::from_str_custom(s, opts) })
         }
         Source::Str | Source::Slice => {
-            Driver { opts, input, ops, then_drain, bound, shared: None, sticky_hard: false, preset_default: opts_ix == opts::PARSE_DEFAULT, mon, what: "slice source" }.drive(if opts_ix == opts::PARSE_DEFAULT { Parser::from_slice(input) } else { Parser::from_slice_custom(input, opts) })
+            Driver { opts, input, ops, then_drain, bound, shared: None, sticky_hard: false, preset_default: opts_ix == opts::PARSE_DEFAULT, opaque, mon, what: "slice source" }.drive(if opts_ix == opts::PARSE_DEFAULT { Parser::from_slice(input) } else { Parser::from_slice_custom(input, opts) })
         }
         Source::Stream(plan) => {
             let mut sim = SimReader::new(input, plan);
             let shared = sim.shared.clone();
             shared.trace.set(mon.keep_log);
             let sticky_hard = plan.faults.iter().any(|f| f.sticky && matches!(f.kind, ReadFaultKind::Hard(_)));
-            let d = Driver { opts, input, ops, then_drain, bound, shared: Some(shared.clone()), sticky_hard, preset_default: opts_ix == opts::PARSE_DEFAULT, mon, what: "stream source" };
+            let d = Driver { opts, input, ops, then_drain, bound, shared: Some(shared.clone()), sticky_hard, preset_default: opts_ix == opts::PARSE_DEFAULT, opaque, mon, what: "stream source" };
             let run = with_adapter(input, plan, &mut sim, StreamDrive(d));
             mon.steps += shared.calls.get();
             mon.add("read.interrupts_fired", shared.interrupts_fired.get());
@@ -921,6 +967,16 @@ pub fn check_hist_case(case: &HistCase, mon: &mut Mon) {
         Workload::Any { input } => check_any(case, input, mon),
         Workload::Deep { shape } => check_deep(case, shape, mon),
         Workload::Storm { blobs, probe_depth } => check_storm(case, blobs, *probe_depth, mon),
+        Workload::Wide { count, .. } => {
+            // totality only: the monitors inside `exec` (panic, budget) and the
+            // runner's process-death attribution are the oracle
+            let input = case.input();
+            let run = exec_with(case.opts, &case.source, &input, &case.ops, case.then_drain, true, mon);
+            mon.count("c03.wide_runs");
+            mon.max("c03.max_list_width", *count as u64);
+            let first = run.steps.first().map(|s| class_of(&s.res)).unwrap_or("none");
+            mon.tuple(format!("wide|{}|{}|{}", case.source.name(), case.ops.first().map(|o| o.name()).unwrap_or("drain"), first));
+        }
     }
 }
 
@@ -1042,7 +1098,12 @@ pub fn candidates(c: &HistCase) -> Vec<HistCase> {
             for q in engine::read_plan_candidates(p) {
                 out.push(HistCase { source: Source::Stream(q), ..c.clone() });
             }
-            if p.faults.is_empty() {
+            // (the slice reader recomputes a position per datum: very wide data
+            // through the datum API must stay on the stream, or a candidate takes
+            // minutes)
+            let datum_ops = c.ops.iter().chain(c.then_drain.iter()).any(|o| matches!(o, Op::NextDatum | Op::ExpectDatum | Op::DatumIterNext));
+            let wide = matches!(c.workload, Workload::Wide { .. });
+            if p.faults.is_empty() && !(wide && datum_ops) {
                 out.push(HistCase { source: Source::Slice, ..c.clone() });
             }
         }
@@ -1152,6 +1213,19 @@ pub fn candidates(c: &HistCase) -> Vec<HistCase> {
                 for o in openers {
                     out.push(HistCase { workload: Workload::Deep { shape: PathShape::Nest { opener: o.clone(), count: *count, closed: *closed } }, ..c.clone() });
                 }
+            }
+        }
+        Workload::Wide { opener, element, count, tail } => {
+            for n in [count / 2, count.saturating_sub(1), 100_000, 50_000, 20_000, 1000] {
+                if n < *count && n > 0 {
+                    out.push(HistCase { workload: Workload::Wide { opener: opener.clone(), element: element.clone(), count: n, tail: tail.clone() }, ..c.clone() });
+                }
+            }
+            if element != "a " {
+                out.push(HistCase { workload: Workload::Wide { opener: opener.clone(), element: "a ".into(), count: *count, tail: tail.clone() }, ..c.clone() });
+            }
+            if !tail.is_empty() {
+                out.push(HistCase { workload: Workload::Wide { opener: opener.clone(), element: element.clone(), count: *count, tail: String::new() }, ..c.clone() });
             }
         }
         Workload::Storm { blobs, probe_depth } => {
@@ -1431,6 +1505,40 @@ pub fn c03_run(seed: u64, i: u64, tier: Tier, mon: &mut Mon, found: &mut Vec<Fou
         }
         mon.tiny3_block(n);
         mon.add("c03.enumerated_len3_inputs", 256);
+        mon.count("scenarios");
+        return;
+    }
+    // Width instead of depth, one run in 300: a flat list (or vector, or dotted
+    // list) of up to 400 000 elements, closed, cut short, or ending in an error,
+    // through every API. The slice and str readers recompute a position per datum
+    // (quadratic in the datum API), so those sources get the value API only.
+    if rng.chance(1, 300) {
+        let opts_ix = opts::draw_parse(&mut rng);
+        let opener = (*rng.pick(&["(", "(", "(", "[", "#(", "(x . (", "'("])).to_string();
+        let element = (*rng.pick(&["a ", "a ", "1 ", "\"s\" ", "(b) ", "#t ", "'q ", "#(1) ", "é "])).to_string();
+        let count = *rng.pick(&[5_000usize, 20_000, 60_000, 150_000, 400_000]);
+        let tail = (*rng.pick(&[")", ")", "", "", " . z)", " . z w)", "]", " #z)", ") a", "\"unterminated"])).to_string();
+        let len = opener.len() + element.len() * count + tail.len();
+        let stream = rng.chance(2, 3);
+        let source = if stream {
+            let mut plan = engine::draw_read_plan(&mut rng, len);
+            if rng.chance(1, 4) {
+                plan.faults.push(ReadFault { at: rng.usize_below(len + 1), kind: ReadFaultKind::Hard(*rng.pick(&KINDS)), sticky: rng.coin(), id: 310, payload: payload_for(rng.usize_below(8)) });
+            }
+            Source::Stream(plan)
+        } else if rng.coin() && element != "é " {
+            Source::Slice
+        } else {
+            Source::Str
+        };
+        let op = if stream {
+            *rng.pick(&[Op::NextDatum, Op::NextDatum, Op::ExpectDatum, Op::DatumIterNext, Op::NextValue, Op::ValueIterNext, Op::IteratorNext])
+        } else {
+            *rng.pick(&[Op::NextValue, Op::ExpectValue, Op::ValueIterNext, Op::IteratorNext])
+        };
+        let drain = if stream { Some(*rng.pick(&[Op::NextDatum, Op::NextValue])) } else { Some(Op::NextValue) };
+        let case = HistCase { opts: opts_ix, source, workload: Workload::Wide { opener, element, count, tail }, ops: vec![op], then_drain: drain };
+        run_and_collect(case, mon, found);
         mon.count("scenarios");
         return;
     }
